@@ -12,6 +12,7 @@ import (
 	k8sinternal "k8s.io/client-go/informers/internalinterfaces"
 	"k8s.io/client-go/tools/cache"
 
+	configv1alpha1 "github.com/furiko-io/furiko/apis/config/v1alpha1"
 	execution "github.com/furiko-io/furiko/apis/execution/v1alpha1"
 	furikoinformers "github.com/furiko-io/furiko/pkg/generated/informers/externalversions"
 	furikoexec "github.com/furiko-io/furiko/pkg/generated/informers/externalversions/execution"
@@ -86,6 +87,10 @@ func (i *Informers) Pods() *FakeInformer       { return i.set.get(&corev1.Pod{})
 // Context is a controllercontext.Context with fake clientsets (from the repo's mock package),
 // mock dynamic configs, and the deterministic informers above.
 type Context struct {
+	// OnCronConfigLoad, when set, runs at every load of the cron dynamic config; used to
+	// interleave an event with code that reads the config in the middle of an operation.
+	OnCronConfigLoad func()
+
 	clientsets *mock.Clientsets
 	configs    *mock.Configs
 	informers  *Informers
@@ -113,11 +118,27 @@ func NewContext() *Context {
 func (c *Context) Start(ctx context.Context) error          { return nil }
 func (c *Context) Clientsets() controllercontext.Clientsets { return c.clientsets }
 func (c *Context) MockClientsets() *mock.Clientsets         { return c.clientsets }
-func (c *Context) Configs() controllercontext.Configs       { return c.configs }
-func (c *Context) MockConfigs() *mock.Configs               { return c.configs }
-func (c *Context) Informers() controllercontext.Informers   { return c.informers }
-func (c *Context) Sim() *Informers                          { return c.informers }
-func (c *Context) Stores() controllercontext.Stores         { return c.stores }
+func (c *Context) Configs() controllercontext.Configs {
+	return &hookedConfigs{Configs: c.configs, ctx: c}
+}
+func (c *Context) MockConfigs() *mock.Configs             { return c.configs }
+func (c *Context) Informers() controllercontext.Informers { return c.informers }
+func (c *Context) Sim() *Informers                        { return c.informers }
+func (c *Context) Stores() controllercontext.Stores       { return c.stores }
 
 // ResetStores drops the registered stores (controller process restart).
 func (c *Context) ResetStores() { c.stores = controllercontext.NewContextStores() }
+
+type hookedConfigs struct {
+	*mock.Configs
+	ctx *Context
+}
+
+func (h *hookedConfigs) Cron() (*configv1alpha1.CronExecutionConfig, error) {
+	if f := h.ctx.OnCronConfigLoad; f != nil {
+		h.ctx.OnCronConfigLoad = nil
+		f()
+		defer func() { h.ctx.OnCronConfigLoad = f }()
+	}
+	return h.Configs.Cron()
+}
